@@ -396,7 +396,12 @@ def fmt(n, depth=0):
             return "(%s %s %s)" % (fmt(bo[1], d), bo[0], fmt(bo[2], d))
         uo = as_unop(n)
         if uo and n.get("op"):
-            return "(%s%s)" % (uo[0], fmt(uo[1], d))
+            o = uo[0]
+            if o.endswith("post"):
+                return "(%s%s)" % (fmt(uo[1], d), o[:-4])
+            if o.endswith("pre"):
+                o = o[:-3]
+            return "(%s%s)" % (o, fmt(uo[1], d))
         nm = short(n.get("name") or "?")
         if n.get("this") is not None:
             th = n["this"]
